@@ -5,6 +5,7 @@
 ;;        <res> = M<spans>;S<spans>   spans = #f -> "-"   else  i-j,x,i-j,...   (x = submatch unset)
 ;;        a Scheme error while matching one string gives  M!<msg>  /  S!<msg>
 ;;   or   id ERR <message>        when (regexp sre) raises
+;; also:  (id range sre (str start end) ...) -> like R, calling (regexp-matches rx str start end) / (regexp-search rx str start end)
 ;; also:  (id fold sre str ...) -> id G F<spans kons saw>;E<regexp-extract>;S<regexp-split>;P<regexp-partition>;R<regexp-replace with "-">
 ;; also:  (id chars cp ...)  ->  id K cp:fold:up:down:word ...   (char-level functions, hex)
 (import (scheme base) (scheme write) (scheme read) (scheme char) (scheme file)
@@ -95,6 +96,22 @@
            (write-string (hex (char->integer (char-downcase ch)))) (write-string ":")
            (write-string (if (char-set-contains? char-set:word ch) "1" "0"))))
        (cddr c)))
+     ((eq? (cadr c) 'range)
+      ;; (id range sre (str start end) ...) -> id R M<spans>;S<spans> ...   with the optional start/end arguments
+      (let ((rx (guard (e (#t (cons 'err (msg-of e)))) (regexp (car (cddr c))))))
+        (cond
+         ((pair? rx)
+          (write-string " ERR ") (write-string (cdr rx)))
+         (else
+          (write-string " R")
+          (for-each
+           (lambda (x)
+             (let ((s (car x)) (start (cadr x)) (end (car (cddr x))))
+               (write-string " M")
+               (write-string (guard (e (#t (string-append "!" (msg-of e)))) (spans (regexp-matches rx s start end) s)))
+               (write-string ";S")
+               (write-string (guard (e (#t (string-append "!" (msg-of e)))) (spans (regexp-search rx s start end) s)))))
+           (cdr (cddr c)))))))
      ((eq? (cadr c) 'fold)
       ;; (id fold sre str ...) -> id G <res> ...   res = F<spans>;E<strs>;S<strs>;P<strs>;R<str>
       (let ((rx (guard (e (#t (cons 'err (msg-of e)))) (regexp (car (cddr c))))))
